@@ -6,6 +6,8 @@ import (
 	"os"
 	"reflect"
 	"strings"
+
+	hessian "github.com/vogo/gohessian"
 )
 
 func init() { props["C01"] = runC01 }
@@ -43,6 +45,9 @@ func c01Case(c *ctx, val interface{}, label string, seed uint64) bool {
 	if eo != oOK {
 		c.fail("encode of a supported value fails", in, eo.String()+": "+msg, "")
 		return false
+	}
+	if tmC, _, ok := safeExtract(val); ok {
+		decCorr(c, tmC, bs)
 	}
 	if do != oOK {
 		c.fail("decode of the encoder's own output fails", in, do.String()+": "+msg+" bytes="+hx(trunc(bs, 120)), "")
@@ -160,4 +165,9 @@ func c01Class(val interface{}, want, got string) string {
 		return "C01-F2-ptr-slice-and-value-slice-share-wire-name"
 	}
 	return ""
+}
+
+func safeExtract(val interface{}) (tm map[string]reflect.Type, nm map[string]string, ok bool) {
+	o, _ := guard(func() error { tm, nm = hessian.ExtractTypeNameMap(val); return nil })
+	return tm, nm, o == oOK
 }
